@@ -1,5 +1,6 @@
 import NssVerif.RealInst
 import NssVerif.Model.Geometry
+import NssVerif.Gen.Src.C02
 import NssVerif.Lemmas.Vectors
 import NssVerif.Lemmas.Cubic
 import Mathlib.Tactic.Ring
@@ -649,5 +650,32 @@ example : (Real.sqrt 34) ^ 2 = (3:ℝ) ^ 2 + 5 ^ 2 - 2 * 3 * 5 * Real.cos (π / 
     ∧ 0 < Real.sqrt 34 := by
   rw [Real.cos_pi_div_two, Real.sin_pi_div_two, Real.sq_sqrt (by norm_num)]
   refine ⟨by norm_num, by norm_num, Real.sqrt_pos.mpr (by norm_num)⟩
+
+/-! ### source tie: the functions translated from the Python source of the working tree ARE the model
+
+`Gen/Src/C02.lean` is regenerated from `region_geometry.py` on every run (harness/pytrans.py, spec harness/srcspecs/C02.py).
+Both equalities hold by unfolding alone, for every `Scalar` instance — over ℝ (what the theorems above are about) and at
+`Float` (what the driver executes): the model has the operation order of the source, `x**k` of the 0-d constants is libm
+`pow` on both sides, `np.clip` is the NaN-preserving nested comparison on both sides.  Hence every theorem above about
+`throw1 c …` / `alongTraj R e s` is a theorem about what `RegionGeom.throw` / `find_lat_long_along_traj` compute now. -/
+
+/-- the model's event as the structure of everything `RegionGeom.throw` stores (same fields, the source's names) -/
+def eventAsStored {α : Type} (e : Event α) : Gen.Src.C02.ThrowOut α :=
+  { thetaTrSubV := e.thetaTrSubV, costhetaTrSubV := e.costhetaTrSubV, phiTrSubV := e.phiTrSubV, phiS := e.phiS,
+    losPathLen := e.losPathLen, thetaS := e.thetaS, costhetaNSubV := e.costhetaNSubV, costhetaTrSubN := e.costhetaTrSubN,
+    thetaTrSubN := e.thetaTrSubN, betaTrSubN := e.betaTrSubN, latS := e.latS, longS := e.longS,
+    elevAngVSubN := e.elevAngVSubN, aziAngVSubN := e.aziAngVSubN, event_mask := e.eventMask }
+
+/-- `RegionGeom.throw` as translated from the source, run on the constants `c` that `__init__` left on the object, stores
+exactly the model's event `throw1 c u1 u2 u3 u4` — all fourteen arrays and the event mask -/
+theorem src_throw {α : Type} [Scalar α] (c : Consts α) (u1 u2 u3 u4 : α) :
+    Gen.Src.C02.throw u1 u2 u3 u4 c.sinMax c.maxPhiS c.minPhiS c.D c.R2 c.Lmax c.Lmin c.R c.detLat c.detLong
+      = eventAsStored (throw1 c u1 u2 u3 u4) := rfl
+
+/-- `RegionGeom.find_lat_long_along_traj` as translated from the source (the `event_mask` accessors inlined: the value
+for one kept event) returns the model's `(latPath, longPath)`; the mask itself does not enter the value -/
+theorem src_alongTraj {α : Type} [Scalar α] (R : α) (e : Event α) (s : α) :
+    Gen.Src.C02.alongTraj s R e.thetaTrSubV e.phiTrSubV e.latS e.longS e.elevAngVSubN e.aziAngVSubN e.eventMask
+      = ((alongTraj R e s).1, (alongTraj R e s).2.1) := rfl
 
 end C02
